@@ -8,6 +8,7 @@ import Jasm.Model.Macro
 import Jasm.Model.Pipeline
 import Jasm.Spec.Den
 import Jasm.Spec.Objdump
+import Jasm.Model.Cli
 /-!
 # Line-protocol driver: one JSON request per line on stdin, one JSON reply per line on stdout.
 
@@ -259,6 +260,18 @@ def handle (st : Config) (j : Json) : Except String (Config × Json) := do
       ("text", .str (strOf (renderListing ls))),
       ("lines", .arr (ls.map fun l => Json.str (strOf (renderLine l))).toArray),
       ("expected", .arr ((expectedInsts ls).map jsonOfInst).toArray)])])
+  | "cli" => do
+    let argv ← j.getObjValAs? (Array String) "argv"
+    let r := (parseArgs (argv.toList.map String.toList)).bind toMatchConfig
+    pure (st, match r with
+      | .ok c => Json.mkObj [("ok", Json.mkObj [
+          ("pattern", .str (strOf c.pattern)), ("input", .str (strOf c.input)),
+          ("kind", .str (match c.kind with | .binary => "binary" | .assembly => "assembly")),
+          ("mode", .str (match c.mode with | .all => "all" | .first => "first")),
+          ("addrOnly", .bool c.addrOnly),
+          ("macros", .arr (c.macros.map fun m => Json.str (strOf m)).toArray)])]
+      | .error (.usage m) => Json.mkObj [("err", .str m)]
+      | .error (.unsupported m) => Json.mkObj [("unsup", .str m)])
   | "objdumpArgs" => do
     pure (st, Json.mkObj [("ok", .arr ((objdumpArgs (st.style.getD .att) (st.sections.getD [])).map
       fun s => Json.str (strOf s)).toArray)])
